@@ -116,9 +116,11 @@ impl OutputFormat for IcyDraw {
             let mut result: Vec<u8> = Vec::new();
             write_utf8_encoded_string(&mut result, &layer.properties.title);
 
-            match layer.role {
-                crate::Role::Image => result.push(1),
-                _ => result.push(0),
+            // an image layer that lost its picture (Layer::set_char removes a sixel it overwrites) has only cells: it is written as a normal layer
+            let sixel = if matches!(layer.role, crate::Role::Image) { layer.sixels.first() } else { None };
+            match sixel {
+                Some(_) => result.push(1),
+                None => result.push(0),
             }
 
             // Some extra bytes not yet used
@@ -167,8 +169,7 @@ impl OutputFormat for IcyDraw {
             result.extend(i32::to_le_bytes(layer.get_height()));
             result.extend(u16::to_le_bytes(layer.default_font_page as u16));
 
-            if matches!(layer.role, crate::Role::Image) {
-                let sixel = &layer.sixels[0];
+            if let Some(sixel) = sixel {
                 let sixel_header_size = 16;
                 let len = sixel_header_size + sixel.picture_data.len() as u64;
 
